@@ -992,20 +992,10 @@ func c13Layers(c *c13Case) []*c13Case {
 	return out
 }
 
-func c13RunStack(c *c13Case) (res Result) {
-	layers := c13Layers(c)
-	n := len(layers)
-	probeReq := c13Request(layers[0])
-	authValues := probeReq.Header.Values("Authorization")
-	bcalls := make([][]c13Call, n)
-	kcalls := make([][]string, n)
-	ehClass := make([]int, n)
-	reached := make([]bool, n+1)
-	ran := false
-	srcsOf := make([][]c13Src, n)
-	locOf := make([][][]c13Pair, n)
-
-	ops := []string{wInt(layers[0].commitStatus()), "3", wInt(n)}
+// c13StackOps: the model's input line for the instances `layers` (outermost first) on the request probeReq of layers[0];
+// fills in, per KeyAuth instance, its lookup sources and what net/http locates there.  cfgOK: every KeyLookup is well-formed.
+func c13StackOps(layers []*c13Case, probeReq *http.Request, srcsOf [][]c13Src, locOf [][][]c13Pair) (string, bool) {
+	ops := []string{wInt(layers[0].commitStatus()), "3", wInt(len(layers))}
 	cfgOK := true
 	for i, l := range layers {
 		if l.Mode == 0 {
@@ -1030,7 +1020,24 @@ func c13RunStack(c *c13Case) (res Result) {
 		}
 		ops = append(ops, c13Table(l, false))
 	}
-	res.Ops = strings.Join(ops, " ")
+	return strings.Join(ops, " "), cfgOK
+}
+
+func c13RunStack(c *c13Case) (res Result) {
+	layers := c13Layers(c)
+	n := len(layers)
+	probeReq := c13Request(layers[0])
+	authValues := probeReq.Header.Values("Authorization")
+	bcalls := make([][]c13Call, n)
+	kcalls := make([][]string, n)
+	ehClass := make([]int, n)
+	reached := make([]bool, n+1)
+	ran := false
+	srcsOf := make([][]c13Src, n)
+	locOf := make([][][]c13Pair, n)
+
+	ops, cfgOK := c13StackOps(layers, probeReq, srcsOf, locOf)
+	res.Ops = ops
 
 	e := echo.New()
 	var useMW, groupMW, routeMW []echo.MiddlewareFunc
@@ -2511,6 +2518,7 @@ func init() {
 		Run:            c13Run,
 		Shrink:         c13Shrink,
 		Mutate:         c13Mutate,
+		Tolerable:      c13Tolerable,
 		Correspondence: "C13.basicAuthMW + wwwValue / C13.keyAuthMW / C13.authStack / C13.createExtractors + extract (lean/EchoModel/C13.lean) vs middleware.BasicAuth / BasicAuthWithConfig / KeyAuth / KeyAuthWithConfig / CreateExtractors",
 	})
 }
